@@ -56,8 +56,16 @@ def skeleton(sk, ev, flow):
     if sk == 4:
         return [SequenceStartEvent(None, None, True, flow_style=flow), MappingStartEvent(None, None, True, flow_style=flow), ev,
                 SequenceStartEvent(None, None, True, flow_style=flow), SequenceEndEvent(), MappingEndEvent(), SequenceEndEvent()]
-    return [MappingStartEvent('m', None, True, flow_style=flow), S('k'), SequenceStartEvent(None, None, True, flow_style=flow), ev,
-            AliasEvent('m'), SequenceEndEvent(), MappingEndEvent()]
+    if sk == 5:
+        return [MappingStartEvent('m', None, True, flow_style=flow), S('k'), SequenceStartEvent(None, None, True, flow_style=flow), ev,
+                AliasEvent('m'), SequenceEndEvent(), MappingEndEvent()]
+    if sk == 6:
+        # a *collection* with an (implicit, hence elided) tag as mapping key; the scalar under test is its first item
+        return [MappingStartEvent(None, None, True, flow_style=flow), SequenceStartEvent(None, T + 'seq', True, flow_style=True), ev, S('b'),
+                SequenceEndEvent(), S('v'), MappingEndEvent()]
+    # a tagged mapping as key whose first key is the scalar under test; then a tagged sequence value
+    return [MappingStartEvent(None, None, True, flow_style=flow), MappingStartEvent(None, T + 'map', True, flow_style=True), ev, S('b'),
+            MappingEndEvent(), SequenceStartEvent(None, '!s', False, flow_style=flow), S('c'), SequenceEndEvent(), MappingEndEvent()]
 
 
 def same_events(orig, got):
@@ -155,6 +163,20 @@ def one_scalar_alpha(i0: int, i1: int, n: int, style_i: int, impl_i: int, sk: in
 
 PREFIX_CHARS = ['', 'a', '!', ' ', '%', ',', '[', '#', '\n', '\x01'] + ['\xe9', '\u20ac', '\U0001f600', '\x85', '\u2028', '\ufeff']
 HANDLE_CHARS = ['e', '', '1', '-', '_', '!', ' ', '\xe9']
+
+
+FOLD = 'a \n\xe9"'
+
+
+def fold(k0: int, k1: int, k2: int, k3: int, k4: int, k5: int, n: int, style_i: int, sk: int, width: int, allow_unicode: bool) -> str:
+    """longer scalar text over a small alphabet with an effective narrow width: fold points of every
+    writer, folds right after an escape, more-indented lines"""
+    ks = [k0, k1, k2, k3, k4, k5]
+    x = ''
+    for i in range(6):
+        if i < n:
+            x += pick(ks[i], FOLD)
+    return one_scalar(x, 'c', style_i, 0, False, 0, sk, False, False, False, allow_unicode, width)
 
 
 def directives(pi: int, hi: int, ver_minor: int, explicit: bool) -> str:
@@ -279,13 +301,14 @@ def jobs(tier):
                           bounds='scalar value len<=%d over all code points, requested style %r, skeleton %d, allow_unicode both' % (XL, STYLE_REQ[st], sk)))
     # tags: 7 kinds with a free character, anchors, implicit pairs
     for tg in range(7):
-        js.append(Job('tag/kind%d' % tg, one_scalar,
-                      [lambda x, c, style_i, impl_i, anch, tag_i, sk, flow, ver, canonical, allow_unicode, width, _t=tg:
-                       tag_i == _t and x == 'v' and len(c) == 1 and c < '\x80' and (style_i == 0 if (q and _t >= 4) else (style_i == 0 or style_i == 3)) and 0 <= impl_i <= 3 and
-                       (sk == 2 if q else (sk == 0 or sk == 2)) and not flow and (not ver if q else True) and (not anch if q else True)
-                       and not canonical and width == 80 and allow_unicode],
-                      budget=150 if q else 1200,
-                      bounds='tag kind %d with one free ASCII character x anchor x 4 implicit pairs' % tg))
+        for tsk in ((2, 6) if q else (0, 2, 6, 7)):
+            js.append(Job('tag/kind%d/sk%d' % (tg, tsk), one_scalar,
+                          [lambda x, c, style_i, impl_i, anch, tag_i, sk, flow, ver, canonical, allow_unicode, width, _t=tg, _k=tsk:
+                           tag_i == _t and x == 'v' and len(c) == 1 and c < '\x80' and (style_i == 0 if (q and _t >= 4) else (style_i == 0 or style_i == 3)) and 0 <= impl_i <= 3 and
+                           sk == _k and not flow and (not ver if q else True) and (not anch if q else True)
+                           and not canonical and width == 80 and allow_unicode],
+                          budget=150 if q else 1200,
+                          bounds='tag kind %d with one free ASCII character x 4 implicit pairs, skeleton %d' % (tg, tsk)))
         if tg >= 4:
             js.append(Job('tag-nonascii/kind%d' % tg, one_scalar_nonascii,
                           [lambda ci, style_i, impl_i, anch, tag_i, sk, ver, _t=tg: tag_i == _t and 0 <= ci < len(NONASCII) and (style_i == 0 or style_i == 3) and
@@ -302,6 +325,17 @@ def jobs(tier):
                        ((width == 80) if q else (width == 80 or width == 4)) and (not canonical if q else True) and (flow if sk == 5 else not flow)],
                       budget=150 if q else 1500, exhaust=q,
                       bounds='2-character strings over the class alphabet starting with %r x 6 requested styles x allow_unicode' % ALPHA[a]))
+    FN = 5 if q else 6
+    for st in ((0, 3, 5) if q else range(6)):
+        for k in range(5):
+            js.append(Job('fold/style%d/first=%r' % (st, FOLD[k]), fold,
+                          [lambda k0, k1, k2, k3, k4, k5, n, style_i, sk, width, allow_unicode, _s=st, _k=k:
+                           style_i == _s and k0 == _k and n == FN and 0 <= k1 <= 4 and 0 <= k2 <= 4 and 0 <= k3 <= 4 and 0 <= k4 <= 4 and
+                           0 <= k5 <= (4 if FN == 6 else 0) and (sk == 3 if q else (sk == 0 or sk == 3 or sk == 1)) and (width == 5 if q else 5 <= width <= 7)
+                           and (not allow_unicode if q else True)],
+                          budget=200 if q else 1800, exhaust=q,
+                          bounds='scalar text of len %d over {a, space, LF, e-acute, "} starting with %r, requested style %r, width %s, mapping value%s' % (
+                              FN, FOLD[k], STYLE_REQ[st], '5' if q else '5..7', '' if q else ' / root / sequence item')))
     js.append(Job('directives', directives, [lambda pi, hi, ver_minor, explicit: 0 <= pi < len(PREFIX_CHARS) and 0 <= hi < len(HANDLE_CHARS) and 0 <= ver_minor <= 2],
                   budget=200 if q else 600, bounds='%%TAG !<h>! t:<p> over %d prefix and %d handle class representatives x %%YAML 1.0-1.2 x explicit' % (len(PREFIX_CHARS), len(HANDLE_CHARS))))
     IN = 4 if q else 5
